@@ -198,5 +198,7 @@ pub fn run(r: &mut Runner) {
         let bases: Vec<[f64; 2]> = vec![[2.5, -1e-17], [-0.5, 1e-18], [2f64.powi(60), 0.5], [7.0, 1e-16], [0.49999999999999994, 1e-18]];
         let groups = crate::hist::unary_groups(&[Op::floor, Op::round, Op::fract], &bases, [3.25, 0.0]);
         crate::hist::explore(r, "histories: floor/ceil/trunc/round/fract", &groups, 3, &hist_judge, 14u64 << 55);
+        // cross-family histories: the same judged calls, preceded by every other public function on the same operands
+        crate::hist::explore_mixed(r, "cross-family histories: any public call, then floor/ceil/trunc/round/fract", &groups[..groups.len().min(2)], 2, &hist_judge, (14u64 << 55) + (1u64 << 53));
     }
 }
